@@ -54,22 +54,7 @@ W long w_congruency(int kind, const ul* src, const ul* trg, long* omap0, long* o
   }
 }
 
-// reference numbering tables (definitional): out[((d*16)+k)*8+j] = FaceIndexMapping<S,d,0>::map(k,j), for shape 0 quad, 1 tria, 2 hexa, 3 tetra
-template<typename S, int d> static void fim(long* out)
-{
-  if constexpr(d >= 1)
-  {
-    typedef typename Shape::FaceTraits<S, d>::ShapeType F;
-    for(int k = 0; k < Shape::FaceTraits<S, d>::count; ++k) for(int j = 0; j < Shape::FaceTraits<F, 0>::count; ++j) out[(d * 16 + k) * 8 + j] = Geometry::Intern::FaceIndexMapping<S, d, 0>::map(k, j);
-    fim<S, d - 1>(out);
-  }
-}
-W long w_tables(int shape, long* out)
-{
-  for(int i = 0; i < 3 * 16 * 8; ++i) out[i] = -1;
-  switch(shape) { case 0: fim<Shape::Hypercube<2>, 1>(out); break; case 1: fim<Shape::Simplex<2>, 1>(out); break; case 2: fim<Shape::Hypercube<3>, 2>(out); break; default: fim<Shape::Simplex<3>, 2>(out); break; }
-  return 0;
-}
+#include "tables.inc"
 
 // ---------------------------------------------------------------- flat <-> index set holder
 static int g_eager = 0;   // 1: decide every symbolic input index at once (executor forks over the values the validity predicate allows)
